@@ -54,10 +54,15 @@ CheckHalf(h) ==
     IN /\ b.ok
        /\ (~IsHalfNaN(h)) => b.v = Half(h)
        /\ IsHalfNaN(h) => IsNaN(w)
+       \* CPython: a binary16 NaN comes back as the canonical quiet NaN of its sign
+       /\ IsHalfNaN(h) => b.v = Half(IF h >= 32768 THEN 65024 ELSE 32256) /\ w = <<IF h >= 32768 THEN 255 ELSE 127, 248, 0, 0, 0, 0, 0, 0>>
        /\ (h < 31743 /\ ~IsHalfNaN(h) /\ ~IsHalfNaN(h + 1)) => CmpEq(w, FloatUnpack(Half(h + 1), "e"), 1) < 0
 \* known constants: 1.0, -2.0, 65504, smallest subnormal half, float32 max, a value that must overflow float32
 F(b) == b
 CheckConsts ==
+    /\ FloatUnpack(<<127, 128, 0, 1>>, "f") = <<127, 248, 0, 0, 32, 0, 0, 0>>       \* a signalling binary32 NaN is quieted, payload kept
+    /\ FloatPack(<<127, 248, 0, 0, 32, 0, 0, 0>>, "f") = Ok(<<127, 192, 0, 1>>)
+    /\ FloatUnpack(<<255, 193, 35, 69>>, "f") = <<255, 248, 36, 104, 160, 0, 0, 0>>
     /\ FloatUnpack(<<60, 0>>, "e") = <<63, 240, 0, 0, 0, 0, 0, 0>>                 \* 1.0
     /\ FloatUnpack(<<192, 0>>, "e") = <<192, 0, 0, 0, 0, 0, 0, 0>>                 \* -2.0
     /\ FloatUnpack(<<123, 255>>, "e") = <<64, 239, 252, 0, 0, 0, 0, 0>>            \* 65504.0
